@@ -40,8 +40,9 @@ def PrintsTok (opt : POpt) (c : Cell) : Prop :=
 
 /-! ### general lemmas for token proofs -/
 
-/-- a character that can occur inside a numeric word and is not a dot -/
-def wordChar (c : UInt8) : Bool := !isspace c && c ≠ 41 && c ≠ 93 && c ≠ 46 && c ≠ 0
+/-- a character that can occur inside a numeric word and is not a dot: not one of the characters at
+    which `scanf_fmtstr` ends the word (white space, ')' , ']', and since fix C11-08 the comment sign '%') -/
+def wordChar (c : UInt8) : Bool := !isspace c && c ≠ 41 && c ≠ 93 && c ≠ 46 && c ≠ 0 && c ≠ 37
 
 theorem numWordLen_sep (rest : Bytes) (h : Sep rest) : numWordLen rest = 0 := by
   cases rest with
@@ -59,9 +60,9 @@ theorem numWordLen_word (t rest : Bytes) (ht : ∀ c ∈ t, wordChar c = true) (
   | cons c r ih =>
     have hc := ht c (by simp)
     simp only [wordChar, Bool.and_eq_true, ne_eq, decide_eq_true_eq, Bool.not_eq_eq_eq_not, Bool.not_true] at hc
-    obtain ⟨⟨⟨⟨h1, h2⟩, h3⟩, h4⟩, _⟩ := hc
+    obtain ⟨⟨⟨⟨⟨h1, h2⟩, h3⟩, h4⟩, _⟩, h37⟩ := hc
     have := ih (fun x hx => ht x (by simp [hx]))
-    simp [numWordLen, h1, h2, h3, startsWith, List.isPrefixOf, this]
+    simp [numWordLen, h1, h2, h3, h37, startsWith, List.isPrefixOf, this]
     intro h46; exact absurd h46.symm h4
 
 theorem isdigit_wordChar (c : UInt8) (h : isdigit c = true) : wordChar c = true := by
